@@ -118,6 +118,37 @@ func init() {
 		return mkTime(uint64(1), mkScalar(ns, types.Int64))
 	}
 
+	// (time.Time).Unix: seconds since the epoch (instants are >= 1970 in the model, so truncation = floor).
+	symExternals["(time.Time).Unix"] = func(fr *frame, args []value) value {
+		requireSet(args[0], "Unix")
+		_, ns := timeParts(args[0])
+		if ns.Op == "const" {
+			return int64(ns.Val) / 1000000000
+		}
+		// time.Unix(sec, c).Unix() with 0 <= c < 1e9: the seconds term itself (no division for the solver)
+		if ns.Op == "bvadd" && len(ns.Args) == 2 && ns.Args[0].Op == "bvmul" && ns.Args[1].Op == "const" && ns.Args[1].Val < 1000000000 {
+			m := ns.Args[0]
+			if m.Args[1].Op == "const" && m.Args[1].Val == 1000000000 {
+				return mkScalar(m.Args[0], types.Int64)
+			}
+			if m.Args[0].Op == "const" && m.Args[0].Val == 1000000000 {
+				return mkScalar(m.Args[1], types.Int64)
+			}
+		}
+		if ns.Op == "bvmul" && len(ns.Args) == 2 && ns.Args[1].Op == "const" && ns.Args[1].Val == 1000000000 {
+			return mkScalar(ns.Args[0], types.Int64)
+		}
+		return mkScalar(BVBin("bvsdiv", ns, BVConst(1000000000, 64)), types.Int64)
+	}
+	symExternals["(time.Time).UnixMilli"] = func(fr *frame, args []value) value {
+		requireSet(args[0], "UnixMilli")
+		_, ns := timeParts(args[0])
+		if ns.Op == "const" {
+			return int64(ns.Val) / 1000000
+		}
+		return mkScalar(BVBin("bvsdiv", ns, BVConst(1000000, 64)), types.Int64)
+	}
+
 	// fmt.Sprintf with %s %d %v %q over strings and ints.
 	symExternals["fmt.Sprintf"] = func(fr *frame, args []value) value {
 		format := args[0].(string)
